@@ -44,6 +44,8 @@ def _gen_file(rng, formats, tier, max_frames=None):
         knobs['chunk_size_multiplier'] = rng.choice([0.01, 0.3, 0.5, 1.0, 1.5, 3.0])
     if fmt == 'h5':
         knobs['compression'] = rng.choice(['zlib', None])
+    if fmt == 'nc' and rng.chance(0.4):
+        knobs['backend'] = 'scipy'          # the scipy.io.netcdf fallback, selected the way the test-suite does (hide netCDF4)
     return {'fmt': fmt, 'n_frames': n, 'n_atoms': n_atoms, 'cell': cell, 'seed': rng.below(1 << 30), 'knobs': knobs}
 
 
@@ -721,6 +723,25 @@ def step_loader(res, check, world, gens, op, stepno):
 # ------------------------------------------------------------------ execute
 
 def execute(check, case, workdir):
+    import sys
+    hide = any(f['fmt'] == 'nc' and f.get('knobs', {}).get('backend') == 'scipy' for f in case['files'])
+    saved = sys.modules.get('netCDF4', 'absent')
+    if hide:
+        sys.modules['netCDF4'] = None
+    try:
+        res = _execute(check, case, workdir)
+        if hide:
+            res.probe('netcdf_scipy_backend')
+        return res
+    finally:
+        if hide:
+            if saved == 'absent':
+                sys.modules.pop('netCDF4', None)
+            else:
+                sys.modules['netCDF4'] = saved
+
+
+def _execute(check, case, workdir):
     import warnings
     warnings.simplefilter('ignore')
     res = Result()
